@@ -6,6 +6,15 @@ def run(ck):
     q = ck.tier == "quick"
     import itertools
     from harness import gen
+    # MC_Reshape: the transcribed routine (ReshapeImpl.tla) on EVERY shape / merge-drop target of the bound, forward and back,
+    # judged by the plan semantics - no Python involved; the recorded calls of the real routine below are then compared
+    # with the same transcription (L2.reshape_args)
+    import os
+    cfg = os.path.join(ck.scratch, "MC_Reshape.cfg")
+    open(cfg, "w").write("SPECIFICATION Spec\nCONSTANTS\n  MaxAxes = %d\n  Sizes = {1, 2, 3, 4, 6}\nINVARIANT ForwardOK\n"
+                         "INVARIANT ForwardWellFormed\nINVARIANT ForwardGivesTarget\nINVARIANT BackwardGivesShape\nCHECK_DEADLOCK FALSE\n"
+                         % (4 if q else 6))
+    ck.model("MC_Reshape.tla", cfg, timeout=3000)
     progs = fuse.reshape_programs(ck.seed, 200 if q else 3000)
     # routine level: the whole domain of the axis-matching routine (all shapes with <= 5 axes over {1,2,3,4,6}),
     # quick: all shapes with <= 3 axes and a seeded tenth of the larger ones
